@@ -50,6 +50,7 @@ type output struct {
 	Stats    map[string]int
 	Harness  []string
 	Shards   int
+	SameName *u1000.SameNameOutput `json:",omitempty"`
 }
 
 func main() {
@@ -61,6 +62,7 @@ func main() {
 	corpus := flag.String("corpus", "", "comma separated dir:pattern+pattern")
 	testdata := flag.String("testdata", "", "GOPATH-style testdata directory copied into a scratch module")
 	maxNodes := flag.Int("maxnodes", 4000, "skip the Coq case (not the deletion test) for larger graphs")
+	staticcheck := flag.String("staticcheck", "", "staticcheck binary built from the tree (enables the same-name-packages tie through the CLI)")
 	keepSrc := flag.Bool("sources", true, "store sources of generated packages in the JSON (for replay)")
 	flag.Parse()
 	rnd := hx.NewRand(*seed*7919 + 17)
@@ -203,6 +205,12 @@ func main() {
 		b.WriteString(strings.Join(texts[k], ";\n"))
 		b.WriteString("\n].\n")
 		hx.WriteFile(fmt.Sprintf("%s_%d.v", *out, k), b.String())
+	}
+	if *staticcheck != "" {
+		sn := u1000.RunSameName(rnd, filepath.Join(*work, "samename"), *staticcheck)
+		o.SameName = sn
+		hx.WriteFile(*out+"_L.v", sn.Coq)
+		lap("same-name packages through the CLI done")
 	}
 	sort.Strings(o.Skipped)
 	hx.EmitJSON(*out+".json", o)
